@@ -528,6 +528,25 @@ class C(A, B2):
 c = C()
 c.conn
 ''', [(14, 20), (16, 2)], [(14, 23), (16, 6)]),
+    ('one-attribute-assigned-from-several-owners', '''class Cfg(object):
+    pass
+cfg = Cfg()
+cfg.mode = 0
+def plain():
+    cfg.mode = "p"
+class One(object):
+    def set(self):
+        cfg.mode = 1.0
+class Two(object):
+    def set(self):
+        cfg.mode = []
+class Three(object):
+    def set(self):
+        cfg.mode = {}
+    def again(self):
+        cfg.mode = ()
+cfg.mode
+''', [(18, 4)], [(18, 8)]),
     ('two-free-heads-in-the-linearisation', '''class Base(object):
     def run(self):
         return 1
